@@ -1,12 +1,12 @@
 package sym
 
 import (
-	"regexp"
-	"os"
-	"runtime/debug"
 	"fmt"
 	"go/types"
 	"math/big"
+	"os"
+	"regexp"
+	"runtime/debug"
 	"sort"
 	"strings"
 	"time"
@@ -81,49 +81,49 @@ type Exec struct {
 	gl     map[*ssa.Global]*Object
 	initFr map[*ssa.Package]*Frame
 
-	Nondets []NondetRec
-	Obs     []ObResult
-	Reached map[string]bool
-	Funcs   map[string]int // SSA functions executed -> instruction count
-	Summ    map[string]int // summaries / models hit
-	Assumes map[string]int // assume label -> times it cut the path (0/1 per path)
-	Steps   int
-	depth   int
-	Env     *Env
-	Effects []Effect
-	Notes   []string
-	evalExtra []*smt.Term // terms whose model values are wanted on sat
-	evalNames []string
+	Nondets     []NondetRec
+	Obs         []ObResult
+	Reached     map[string]bool
+	Funcs       map[string]int // SSA functions executed -> instruction count
+	Summ        map[string]int // summaries / models hit
+	Assumes     map[string]int // assume label -> times it cut the path (0/1 per path)
+	Steps       int
+	depth       int
+	Env         *Env
+	Effects     []Effect
+	Notes       []string
+	evalExtra   []*smt.Term // terms whose model values are wanted on sat
+	evalNames   []string
 	feasUnknown int
 
-	W             *Worker
-	curCaller     *Frame
-	curInstr      ssa.Instruction
-	curPanicFrame []*Frame
-	errIDs        map[string]int
-	lenAxiom      map[int]bool
-	pow10Of       map[int]*smt.Term
-	iterN         int
-	wallN         int
-	runeN         int
-	frames        []*Frame
-	ForkSites     map[string]int
-	SlowSites     map[string]float64
-	SlowPath      []int
-	merge         *mergeState
-	started       time.Time
-	constDone     int
-	constMemo     map[int]*smt.Term
-	contentAtoms  []*smt.Term
-	loopAssume    int
-	loopAssumeFn  string
-	localMerge    map[string]bool
-	localSumm     map[string]bool
-	civilN        int
-	regexSeen     map[string]*regexp.Regexp
-	inInit        int
-	linked        map[int]bool
-	noMerge       bool
+	W                     *Worker
+	curCaller             *Frame
+	curInstr              ssa.Instruction
+	curPanicFrame         []*Frame
+	errIDs                map[string]int
+	lenAxiom              map[int]bool
+	pow10Of               map[int]*smt.Term
+	iterN                 int
+	wallN                 int
+	runeN                 int
+	frames                []*Frame
+	ForkSites             map[string]int
+	SlowSites             map[string]float64
+	SlowPath              []int
+	merge                 *mergeState
+	started               time.Time
+	constDone             int
+	constMemo             map[int]*smt.Term
+	contentAtoms          []*smt.Term
+	loopAssume            int
+	loopAssumeFn          string
+	localMerge            map[string]bool
+	localSumm             map[string]bool
+	civilN                int
+	regexSeen             map[string]*regexp.Regexp
+	inInit                int
+	linked                map[int]bool
+	noMerge               bool
 	formattedBasketDenoms []*smt.Term
 }
 
